@@ -241,6 +241,13 @@ vbi_pfc_demux_feed		(vbi_pfc_demux *	dx,
 		if (pgno < 0)
 			goto desynced;
 
+		if (dx->n_packets > 0
+		    && dx->packet <= dx->n_packets) {
+			/* The previous page ends here but its last
+			   packet(s) are missing. */
+			vbi_pfc_demux_reset (dx);
+		}
+
 		if (pgno != dx->block.pgno) {
 			dx->n_packets = 0;
 			return TRUE;
